@@ -13,7 +13,7 @@ def _OS_FIELDS(src):
 
 META = {
     'design_ref': 'DESIGN.md §5 C05',
-    'technique': "shape-case abstract interpretation of set/remove on both paragraph implementations and of the final-newline helper; __setitem__ and set_field_to_simple_value interpreted on symbolic strings by cases (F / F\\n / F\\nR\\n / F\\nR') against the specified calls; set_field_from_raw_string unfolded into paths (helpers inlined): per-line acceptance as regular languages, validate-before-commit on every committing path; comment hand-over by object identity; line-primitive rule; capture agreement of the field-line regex with the Policy 5.1 field-name language; frame obligation on the final-newline helper chain (nothing but the missing line end changes), interpreted on lines with every part present; no store into the paragraph or its existing field is followed by a refusal (path rule)",
+    'technique': "shape-case abstract interpretation of set/remove on both paragraph implementations and of the final-newline helper; __setitem__ and set_field_to_simple_value interpreted on symbolic strings by cases (F / F\\n / F\\nR\\n / F\\nR') against the specified calls; set_field_from_raw_string unfolded into paths (helpers inlined): per-line acceptance as regular languages, validate-before-commit on every committing path; comment hand-over by object identity; line-primitive rule; capture agreement of the field-line regex with the Policy 5.1 field-name language; frame obligation on the final-newline helper chain (nothing but the missing line end changes), interpreted on lines with every part present; no store into the paragraph or its existing field is followed by a refusal (path rule); the string wrapper assignment interpreted on symbolic values with automatic case refinement (a decision of the code that depends on the value splits the case, every sub-case is judged)",
     'level_text': 'Static decision of the structural conditions for locality: a new field is placed last only after the last field was '
                   'terminated, the terminating newline goes to the last line of the last field and nowhere else, a replacement never moves '
                   'or touches other fields, deletion unlinks exactly the addressed occurrences, a value is routed to the single-line path '
